@@ -19,7 +19,7 @@ BUILTINS = {"len", "int", "float", "abs", "min", "max", "range", "sorted", "all"
             "print", "bool", "zip", "enumerate", "round"}
 SPEC_BUILTINS = {"forall", "forall2", "exists", "implies", "iff", "ite", "old", "seq_eq", "is_none", "opt_val",
                  "sqrt", "Sum", "row", "real", "floor", "is_perm_rows", "count_true", "uf", "ufa", "min2", "max2",
-                 "absr", "lo_of", "sq", "trunc", "SumRange"}
+                 "absr", "lo_of", "sq", "trunc", "SumRange", "store"}
 
 _ufs = {}
 
@@ -214,7 +214,7 @@ def apply_contract(ev, q, c, vals, nodes, st, node, callee_mod, tag=None):
     env = dict(vals)
     s2 = State(env, st.pc)
     if not ev.spec:
-        for i, r in enumerate(c.get("requires", [])):
+        for i, (r, _) in enumerate(ctx.clauses(c.get("requires", []))):
             g = sev.spec_bool(r, s2)
             ctx.oblig("precondition of %s [%d]: %s" % (q, i, r), st, g, node, r)
             st.pc.append(g)
@@ -237,7 +237,7 @@ def apply_contract(ev, q, c, vals, nodes, st, node, callee_mod, tag=None):
     saved = ctx.old_env
     ctx.old_env = old_env
     try:
-        for e in c.get("ensures", []) + c.get("ensures_assumed", []):
+        for e, _ in ctx.clauses(c.get("ensures", []) + c.get("ensures_assumed", [])):
             st.pc.append(sev.spec_bool(e, s3))
     finally:
         ctx.old_env = saved
@@ -515,16 +515,20 @@ def argext(ev, args, st, node, which):
         raise Unsupported("arg%s of %r" % (which, v))
     ev.need("arg%s of a non-empty array" % which, st, v.n > 0, node)
     r = z3.Int(fresh_name("arg" + which))
-    j = z3.Int(fresh_name("j"))
-    vr = as_num(v.at(r)).t
-    vj = as_num(v.at(j)).t
+    # quantify over the *absolute* position p in the underlying array (pattern arr[p] matches every read)
+    p = z3.Int(fresh_name("p"))
+    arr = v.arrs[0]
+    lo = v.off
+    hi = z3.simplify(v.off + v.n)
+    vr = z3.Select(arr, z3.simplify(v.off + r))
+    vp = z3.Select(arr, p)
     st.pc.append(z3.And(r >= 0, r < v.n))
     if which == "max":
-        st.pc.append(z3.ForAll([j], z3.Implies(z3.And(j >= 0, j < v.n), vj <= vr)))
-        st.pc.append(z3.ForAll([j], z3.Implies(z3.And(j >= 0, j < r), vj < vr)))
+        st.pc.append(z3.ForAll([p], z3.Implies(z3.And(p >= lo, p < hi), vp <= vr), patterns=[vp]))
+        st.pc.append(z3.ForAll([p], z3.Implies(z3.And(p >= lo, p < lo + r), vp < vr), patterns=[vp]))
     else:
-        st.pc.append(z3.ForAll([j], z3.Implies(z3.And(j >= 0, j < v.n), vj >= vr)))
-        st.pc.append(z3.ForAll([j], z3.Implies(z3.And(j >= 0, j < r), vj > vr)))
+        st.pc.append(z3.ForAll([p], z3.Implies(z3.And(p >= lo, p < hi), vp >= vr), patterns=[vp]))
+        st.pc.append(z3.ForAll([p], z3.Implies(z3.And(p >= lo, p < lo + r), vp > vr), patterns=[vp]))
     return Num(r)
 
 
@@ -895,6 +899,14 @@ def sp_sumrange(ev, node, st):
     lo = as_num(ev.ev(node.args[1], st)).t
     hi = as_num(ev.ev(node.args[2], st)).t
     return Num(sum_term(v.arrs[0], z3.simplify(v.off + lo), z3.simplify(v.off + hi)))
+
+
+@spec("store")
+def sp_store(ev, node, st):
+    """store(seq, i, v): the sequence seq with element i replaced by v (ghost updates)"""
+    seq = ev.ev(node.args[0], st)
+    i = as_num(ev.ev(node.args[1], st)).t
+    return seq.store(i, ev.ev(node.args[2], st))
 
 
 @spec("uf")
